@@ -16,18 +16,33 @@ structure SecSaved (a b : SecBuf) : Prop where
                       dataSize := b.dataSize, isLoaded := b.isLoaded, canLoad := b.canLoad }
   /-- an address that was set (explicitly, or by loading) is kept -/
   addrKept : a.addrSet = true → b.addr = a.addr ∧ b.addrSet = true
-  /-- resident data (every section of a created or eagerly loaded object) is kept -/
+  /-- a data buffer that exists is kept (every section of a created object that has data; every
+      resident section of a loaded one) -/
+  dataSome : a.data.isSome = true → b.data = a.data ∧ b.dataSize = a.dataSize
+  /-- a resident section (or one that can no longer be loaded) keeps all of its data state -/
   dataKept : (a.isLoaded = true ∨ a.canLoad = false) →
     b.data = a.data ∧ b.dataSize = a.dataSize ∧ b.isLoaded = a.isLoaded ∧ b.canLoad = a.canLoad
 
-theorem secSaved_of {a m b : SecBuf} (h1 : SecFrame a m) (h2 : ResFrame m b) : SecSaved a b := by
-  have e1 := h1.rest; have e2 := h2.rest
-  refine ⟨?_, fun h => ?_, fun h => ?_⟩
-  · rw [e1] at e2
+theorem secSaved_of {a a0 m b : SecBuf} (h0 : ResFrame a a0) (h1 : SecFrame a0 m) (h2 : ResFrame m b) :
+    SecSaved a b := by
+  have e0 := h0.rest; have e1 := h1.rest; have e2 := h2.rest
+  refine ⟨?_, fun h => ?_, fun h => ?_, fun h => ?_⟩
+  · rw [e0] at e1
+    rw [e1] at e2
     rw [e2]
-  · obtain ⟨p, q⟩ := h1.addrKept h
-    rw [e2]; exact ⟨p, q⟩
-  · have hm : m.isLoaded = true ∨ m.canLoad = false := by rw [e1]; exact h
+  · have ha0 : a0.addrSet = true := by rw [e0]; exact h
+    obtain ⟨p, q⟩ := h1.addrKept ha0
+    have : a0.addr = a.addr := by rw [e0]
+    rw [e2]; exact ⟨p.trans this, q⟩
+  · obtain ⟨p0, q0⟩ := h0.dataSome h
+    have hm : m.data.isSome = true := by rw [e1]; show a0.data.isSome = true; rw [p0]; exact h
+    obtain ⟨p2, q2⟩ := h2.dataSome hm
+    have pm : m.data = a0.data := by rw [e1]
+    have qm : m.dataSize = a0.dataSize := by rw [e1]
+    exact ⟨p2.trans (pm.trans p0), q2.trans (qm.trans q0)⟩
+  · have ea : a0 = a := h0.resident h
+    subst ea
+    have hm : m.isLoaded = true ∨ m.canLoad = false := by rw [e1]; exact h
     have := h2.resident hm
     rw [this, e1]; exact ⟨rfl, rfl, rfl, rfl⟩
 
@@ -55,8 +70,10 @@ theorem save_writes_fields {o : Obj} {os : OStream} {r : SaveRes} (h : save o os
     (hidx : SegIdxOk o.segs) :
     FrameL SecSaved o.secs r.obj.secs ∧ FrameL (SegSaved o.cls) o.segs r.obj.segs ∧
     r.obj.cls = o.cls ∧ r.obj.enc = o.enc ∧ r.obj.trans = o.trans := by
-  obtain ⟨⟨l1, f1, f2⟩, fs, e1, e2, e3⟩ := save_frames h hok hidx
-  exact ⟨FrameL.comp (R := Placed o.cls) (S := ResFrame) (T := SecSaved)
-    (fun a m b h1 h2 => secSaved_of (Placed.frame h1) h2) f1 f2, fs, e1, e2, e3⟩
+  obtain ⟨⟨l0, l1, f0, f1, f2⟩, fs, e1, e2, e3⟩ := save_frames h hok hidx
+  have f01 : FrameL (fun a m => ∃ a0, ResFrame a a0 ∧ SecFrame a0 m) o.secs l1 :=
+    FrameL.comp (R := ResFrame) (S := Placed o.cls) (fun a a0 m h0 h1 => ⟨a0, h0, Placed.frame h1⟩) f0 f1
+  exact ⟨FrameL.comp (S := ResFrame) (T := SecSaved)
+    (fun a m b h1 h2 => by obtain ⟨a0, h0, h1'⟩ := h1; exact secSaved_of h0 h1' h2) f01 f2, fs, e1, e2, e3⟩
 
 end ElfioVerif.C05
